@@ -30,13 +30,13 @@ structure KeysIn (P : Nat → Prop) (s : State) : Prop where
   pend : ∀ (t : Nat) (l : Local) (p : Pending), s.threads[t]? = some l → l.call = some p → P p.key
 
 /-- what a transition does to the threads and the history -/
-inductive Frame (s : State) (t : Nat) (l : Local) (s' : State) : Prop
-  | keep (l' : Local) : s'.threads = s.threads.set t l' → s'.hist = s.hist → l'.call = l.call → Frame s t l s'
-  | idle : l.pc = .idle → Frame s t l s'
+inductive CallFrame (s : State) (t : Nat) (l : Local) (s' : State) : Prop
+  | keep (l' : Local) : s'.threads = s.threads.set t l' → s'.hist = s.hist → l'.call = l.call → CallFrame s t l s'
+  | idle : l.pc = .idle → CallFrame s t l s'
   | fin (p : Pending) (c : Call) : l.call = some p → s'.threads = s.threads.set t { pc := .idle, call := none } →
-      s'.hist = (p.key, c) :: s.hist → Frame s t l s'
+      s'.hist = (p.key, c) :: s.hist → CallFrame s t l s'
 
-theorem StepN.frame {s s' : State} {t : Nat} {l : Local} (h : StepN s t l s') : Frame s t l s' := by
+theorem StepN.frame {s s' : State} {t : Nat} {l : Local} (h : StepN s t l s') : CallFrame s t l s' := by
   cases h with
   | idle h => exact .idle h
   | maint k h => exact .idle h
